@@ -211,6 +211,19 @@ def _handle_suspended(
         task_model.name,
     )
 
+    # The stage was reloaded after the task body ran. If the task is no longer
+    # RUNNING, someone else settled it meanwhile (CancelStage canceled it while
+    # the body was executing): a completed status is final, so do not park a
+    # canceled task / stage as SUSPENDED.
+    if task_model.status != WorkflowStatus.RUNNING:
+        logger.info(
+            "Ignoring suspend request of task %s: task is already %s",
+            task_model.name,
+            task_model.status,
+        )
+        txn_helper.execute_atomic(source_message=message, handler_name="RunTask")
+        return
+
     # Set task to SUSPENDED
     task_model.status = WorkflowStatus.SUSPENDED
 
